@@ -5,7 +5,7 @@ import py4hw
 from hypothesis import strategies as st
 
 from .. import netgen
-from ..netgen import netlists, ref_trace, build, is_state, group_enable_sig
+from ..netgen import netlists, ref_trace, build, is_state, group_enable_sig, node_enable_sig
 from ..bench import mask
 from ..runner import ok, fail, discard, HarnessError
 
@@ -48,23 +48,38 @@ def run_case(case):
     sim = b.sys.getSimulator()
     ref = ref_trace(desc, seq)
     order = netgen.comb_order(desc)
-    regs = {k: 0 for k, nd in enumerate(desc['nodes']) if is_state(nd)}
-    gated = {k for k in regs if group_enable_sig(desc, desc['nodes'][k]['g']) is not None}
+    regs = netgen.reg_init(desc)
+    gated = {k for k in regs if node_enable_sig(desc, k) is not None}
     held_observable = False
     advanced = False
-    n_domains = len({group_enable_sig(desc, desc['nodes'][k]['g']) for k in regs})
+    n_domains = len({node_enable_sig(desc, k) for k in regs})
     tags.append('domains={}'.format(min(n_domains, 3)))
+    chunked = bool(case.get('chunked'))
     for t, vec in enumerate(seq):
         for w, v in zip(b.inputs, vec):
             w.put(v)
         pre = netgen.ref_settle(desc, order, vec, regs)
-        sim.clk(1)
-        for s, w in b.wire.items():
+        # with 'chunked' a run of equal input vectors is advanced by a single clk(n) call (the enables may still
+        # change from edge to edge inside the call when they are derived from registers)
+        if chunked:
+            run = 1
+            while t + run < len(seq) and seq[t + run] == vec:
+                run += 1
+            if t > 0 and seq[t - 1] == vec:
+                pass                      # already advanced by the call made at the start of the run
+            else:
+                sim.clk(run)
+                last_of_run = t + run - 1
+            compare_now = (t == last_of_run)
+        else:
+            sim.clk(1)
+            compare_now = True
+        for s, w in (b.wire.items() if compare_now else ()):
             if ref[t][s] is not None and w.get() != ref[t][s]:
                 k = int(s[1:]) if s[0] == 'n' else None
                 kind = 'other'
                 if k is not None and is_state(desc['nodes'][k]):
-                    en_sig = group_enable_sig(desc, desc['nodes'][k]['g'])
+                    en_sig = node_enable_sig(desc, k)
                     if en_sig is None:
                         kind = 'ungated_register'
                     elif pre[en_sig] == 0:
@@ -74,7 +89,7 @@ def run_case(case):
                 return fail('domain|' + kind, 'cycle {}: wire {} is {} expected {} (inputs {}, enables {})'.format(
                     t, s, w.get(), ref[t][s], vec, {g: pre[e['enable']] for g, e in enumerate(desc['groups']) if e.get('enable')}), cls=tags)
         for k in gated:
-            en_sig = group_enable_sig(desc, desc['nodes'][k]['g'])
+            en_sig = node_enable_sig(desc, k)
             if pre[en_sig] is None:
                 continue
             if desc['nodes'][k]['op'] != 'Reg':
@@ -96,9 +111,14 @@ def run_case(case):
         for g in d1['groups']:
             if g.get('enable') is not None:
                 g['enable'] = one
+        for nd in d1['nodes']:
+            if nd['p'].get('cen') is not None:
+                nd['p']['cen'] = one
         d0 = copy.deepcopy(desc)
         for g in d0['groups']:
             g['enable'] = None
+        for nd in d0['nodes']:
+            nd['p'].pop('cen', None)
         b1, b0 = build(d1), build(d0)
         s1, s0 = b1.sys.getSimulator(), b0.sys.getSimulator()
         for t, vec in enumerate(seq):
@@ -143,6 +163,23 @@ def cases(draw, max_nodes, n_cycles):
             r = draw(st.sampled_from(one_bit_regs))
             desc['nodes'][r]['g'] = g
             desc['groups'][g]['enable'] = 'n%d' % r      # enable derived from a register inside the gated domain
+    # a clock driver attached to a leaf register that has clockable siblings under the same parent
+    if regs and draw(st.integers(0, 2)) == 0:
+        k = draw(st.sampled_from(regs))
+        one_bit = ['i0'] + ['n%d' % r for r in regs if desc['nodes'][r]['w'] == 1 and r != k]
+        desc['nodes'][k]['p']['cen'] = draw(st.sampled_from(one_bit))
+        sib = [r for r in regs if r != k]
+        if sib:
+            desc['nodes'][draw(st.sampled_from(sib))]['g'] = desc['nodes'][k]['g']
+    # an enable that toggles on its own (register fed by its complement), so that it changes inside clk(n)
+    if desc['groups'] and draw(st.booleans()):
+        nodes = desc['nodes']
+        r = len(nodes)
+        nodes.append({'op': 'Reg', 'args': ['n%d' % (r + 1)], 'w': 1, 'p': {'en': False, 'rst': False}, 'g': -1})
+        nodes.append({'op': 'Not', 'args': ['n%d' % r], 'w': 1, 'p': {}, 'g': -1})
+        desc['order'] = desc['order'] + [r, r + 1]
+        g = draw(st.integers(0, len(desc['groups']) - 1))
+        desc['groups'][g]['enable'] = 'n%d' % r
     from ..cat_arith import value_st
     n = draw(st.integers(3, n_cycles))
     # enable input pattern: gaps, pulses, always on
@@ -157,7 +194,11 @@ def cases(draw, max_nodes, n_cycles):
         elif pat == 'on':
             vec[0] = 1
         seq.append(vec)
-    return {'desc': desc, 'inputs': seq, 'tie': draw(st.integers(0, 3)) == 0}
+    chunked = draw(st.booleans())
+    if chunked:
+        # hold every vector for 1..4 cycles
+        seq = [v for v in seq for _ in range(draw(st.integers(1, 4)))][:3 * n_cycles]
+    return {'desc': desc, 'inputs': seq, 'tie': draw(st.integers(0, 3)) == 0, 'chunked': chunked}
 
 
 def shrink_candidates(case):
